@@ -261,6 +261,17 @@ BIG_OK = {
     "point_charge_integral": (30, 3, 40),
 }
 
+# a few thousand points on a tiny basis are still cheap for these (vectorised over points); grids above 4096 /
+# 8192 points are where slab-wise processing would start
+HUGE_OK = {
+    "evaluate_basis": (10, 1, 12000),
+    "evaluate_density": (10, 1, 12000),
+    "evaluate_deriv_basis": (10, 1, 9000),
+    "electrostatic_potential": (8, 1, 9000),
+    "point_charge_integral": (8, 1, 6000),
+    "evaluate_density_gradient": (8, 1, 6000),
+}
+
 COST_CAPS = {
     "evaluate_ehrenfest_hessian": (6, 1, 1),
     "evaluate_ehrenfest_force": (10, 2, 2),
@@ -1046,6 +1057,8 @@ def r_query(w, op):
         caps = COST_CAPS.get(fn_name, (40, 4, 8))
     if op.get("big") and fn_name in BIG_OK:
         caps = BIG_OK[fn_name]
+        if op.get("huge") and fn_name in HUGE_OK:
+            caps = HUGE_OK[fn_name]
     max_pts = caps[2]
     if op.get("heavy"):
         # a dedicated d shell with four primitives: the (dd|dd) block has 23 M intermediate elements
@@ -1076,7 +1089,10 @@ def r_query(w, op):
     big = bool(op.get("big")) and fn_name in BIG_OK
 
     def pts(idx):
-        return w.points(d[idx], reuse(), rs, max_n=max_pts, min_n=50 if (big and max_pts >= 50) else 1)
+        lo = 1
+        if big and max_pts >= 50:
+            lo = 4200 if max_pts >= 6000 else 50
+        return w.points(d[idx], reuse(), rs, max_n=max_pts, min_n=lo)
 
     def charges_for(n, idx):
         return w.array("charges", (n,), d[idx], reuse(), lambda: _mk_charges(rs, n, P["charges"]))
